@@ -27,9 +27,12 @@ def run(rep):
     res = C.proof_obligations(rep, 'Properties/C16.v')
     rng = random.Random(rep.seed * 9 + 16)
     quick = rep.tier == 'quick'
-    strings = [[38], [60], [62], [34], [10], [9], [38, 97, 109, 112, 59], [93, 93, 62], [32, 32, 32], [128512], [60, 33, 45, 45]]
+    strings = [[38], [60], [62], [34], [10], [9], [38, 97, 109, 112, 59], [93, 93, 62], [32, 32, 32], [128512], [60, 33, 45, 45],
+               [97, 10, 32, 32, 98], [97, 10, 32, 32, 32, 32, 98, 10, 32, 32, 32, 32, 32, 32, 99], [10, 32, 32, 32, 32, 32, 32], [97, 10, 32, 32, 32, 32, 32, 32, 32, 32, 98]]
     for _ in range(1500 if quick else 30000):
         strings.append([xml_char(rng) for _ in range(rng.randrange(1, 12))])
+    for _ in range(200 if quick else 3000):
+        strings.append([rng.choice([97, 10, 32, 32, 32, 98, 9]) for _ in range(rng.randrange(4, 16))])
     # strings that survive the library's own value handling unchanged: the token type collapses white space on INPUT (C05), so keep
     # white space only in the xs:string typed text position; attribute position uses white-space-free strings plus explicit cases
     job = {'seed': rep.seed, 'strings': strings, 'twins': 300 if quick else 5000}
@@ -57,6 +60,9 @@ def run(rep):
             rep.violation('text %r is not recovered by a standard XML parser from to_string()' % st, {'codepoints': s, 'raw': rec.get('text_raw')})
         elif rec['text_raw'] != mt_s:
             rep.violation('text %r is emitted as %r, the escaping model says %r' % (st, rec['text_raw'], mt_s), {'codepoints': s, 'correspondence': 'ET.tostring <-> Ser.escape_text'}, found_input=False)
+        if rec.get('nested_ok') is False or 'nested_exc' in rec:
+            rep.violation('text %r nested three levels deep is not recovered from the serialisation of the element / its parent / its grandparent: %s' % (st, rec.get('nested_got') or rec.get('nested_exc')),
+                          {'codepoints': s, 'recovered': rec.get('nested_got')})
         if not rec['attr_ok']:
             nbad += 1
             rep.violation('attribute value %r is not recovered by a standard XML parser from to_string()' % st, {'codepoints': s, 'raw': rec.get('attr_raw')})
